@@ -53,13 +53,15 @@ class _MixtureOfProductDistribution(NamedTuple):
             elif isinstance(d, _BatchedTruncNormDistributions):
                 active_mus = d.mu[active_indices]
                 active_sigmas = d.sigma[active_indices]
-                ret[:, i] = _truncnorm.rvs(
+                samples = _truncnorm.rvs(
                     a=(d.low - active_mus) / active_sigmas,
                     b=(d.high - active_mus) / active_sigmas,
                     loc=active_mus,
                     scale=active_sigmas,
                     random_state=rng,
                 )
+                # Rescaling by `scale` and `loc` may leave [low, high] by a rounding error.
+                ret[:, i] = np.clip(samples, d.low, d.high)
             elif isinstance(d, _BatchedDiscreteTruncNormDistributions):
                 active_mus = d.mu[active_indices]
                 active_sigmas = d.sigma[active_indices]
